@@ -153,6 +153,12 @@ def classify_numchar(c, base=10):
             return ('digit', z3.IntVal(int(ch)))   # unicode decimal digit
         except ValueError:
             return ('other', None)
+    if base > 10:
+        isdig = z3.Or(z3.And(c >= 48, c <= 57), z3.And(c >= 97, c < 97 + base - 10), z3.And(c >= 65, c < 65 + base - 10))
+        e = E.cur()
+        if e.must(isdig):
+            # provably a digit of this base: value as a term, no fork on its spelling
+            return ('digit', z3.If(c <= 57, c - 48, z3.If(c <= 90, c - 55, c - 87)))
     if SymBool(z3.And(c >= 48, c <= 57)):
         if base >= 10:
             return ('digit', c - 48)
@@ -425,11 +431,16 @@ def m_hex(x):
             p *= 16
         if nd is None:
             raise Unmodelled('hex() with more than 16 digits')
+        e = E.cur()
         out = []
-        for i in range(nd - 1, -1, -1):
-            d = fdiv(z, z3.IntVal(16 ** i))
-            d = d - 16 * fdiv(d, z3.IntVal(16))
-            out.append(z3.simplify(z3.If(d < 10, d + 48, d + 87)))
+        total = z3.IntVal(0)
+        for i in range(nd):
+            d = z3.Int('hexd%d_%d' % (e.nfresh, i))
+            e.bounded(d, 1 if (i == 0 and nd > 1) else 0, 15)
+            total = total * 16 + d
+            out.append(z3.If(d < 10, d + 48, d + 87))
+        e.nfresh += 1
+        e.add(total == z)
         pre = [45] if neg else []
         return mkstr(pre + [48, 120] + out)
     return hex(x)
@@ -645,6 +656,23 @@ def sym_getitem(o, i):
             n = len(o)
             if SymBool(z3.Or(z >= n, z < -n)):
                 raise IndexError('%s index out of range' % type(o).__name__)
+            if isinstance(o, str) and n > 4:
+                if SymBool(z < 0):
+                    z = z + n
+                ch = z3.IntVal(ord(o[-1]))
+                for k in range(n - 2, -1, -1):
+                    ch = z3.If(z == k, ord(o[k]), ch)
+                # contiguous runs (0-9, A-Z) collapse to linear pieces
+                runs = []
+                for k, c0 in enumerate(o):
+                    if runs and runs[-1][1] + runs[-1][2] == ord(c0) and runs[-1][0] + runs[-1][2] == k:
+                        runs[-1][2] += 1
+                    else:
+                        runs.append([k, ord(c0), 1])
+                ch = z3.IntVal(runs[-1][1]) + (z - runs[-1][0])
+                for k0, c0, ln in reversed(runs[:-1]):
+                    ch = z3.If(z < k0 + ln, c0 + (z - k0), ch)
+                return mkstr((z3.simplify(ch),))
             return o[concretize_int(i, -n, n - 1, 'index')]
         if isinstance(o, dict):
             return dict_lookup(o, i, None, False)
